@@ -583,12 +583,24 @@ func c15Concurrent(kind int) func() explore.SchedOutcome {
 		if kind == 1 {
 			t2 = ref.Tx{Type: ref.TUpdateUser, Fields: []ref.Fld{ref.F(ref.FData, c15Sub{kind: "modify", login: "a", pw: "-", acc: 1}.fields())}}
 		}
+		if kind == 2 { // an edit and a deletion of the same account
+			t2 = ref.Tx{Type: ref.TDeleteUser, Fields: []ref.Fld{ref.F(ref.FUserLogin, obf("a"))}}
+		}
 		a1.Send(t1)
 		a2.Send(t2)
 		vrt.EndSetup()
 		vrt.WaitQuiet()
 		mem := wd.Srv.AccountManager.Get("a")
 		m2, err := mobius.NewYAMLAccountManager(wd.UsersDir)
+		if kind == 2 && err == nil && mem == nil {
+			// deleted: then it is gone from the files too
+			if d := m2.Get("a"); d != nil {
+				out.Violations = append(out.Violations, explore.SchedV{Signature: "C15/concurrent/running-server-and-files-disagree",
+					Detail: fmt.Sprintf("after a concurrent edit and deletion of account a: not in memory (cannot log in, not listed), on disk (fresh manager) %s", d.Name)})
+			}
+			out.Canon = "deleted"
+			return out
+		}
 		if err != nil || mem == nil {
 			out.Violations = append(out.Violations, explore.SchedV{Signature: "C15/concurrent/restart-cannot-load-accounts", Detail: fmt.Sprint(err)})
 			return
@@ -624,7 +636,7 @@ func runC15(w *explore.Worker) {
 	if w.Thorough {
 		bound = 3
 	}
-	for kind := 0; kind < 2; kind++ {
+	for kind := 0; kind < 3; kind++ {
 		explore.ExploreSchedules(w, explore.SchedConfig{Harness: "C15concurrent", Params: fmt.Sprint(kind), Bound: bound, FreeCost: 1, MaxSteps: 20000, Suspend: true}, c15Concurrent(kind))
 	}
 	w.Max("concurrent_deviation_bound_completed", bound)
